@@ -1743,3 +1743,969 @@ Proof.
   - exfalso. exact (under_not_named bt u Hbt Eu).
   - (* unsupported *) apply KS. intros [|g]; [apply spec_empty_O|]. rewrite spec_empty_S, Eu. destruct bv; reflexivity.
 Qed.
+
+(* ---------- inline: an object value gives its members ---------- *)
+Lemma Sim_obj g : forall G t v cms inif g0,
+  type_ok t = true -> hty t v = true ->
+  (forall g', (g0 <= g')%nat -> spec_fold g' t v = Some (CObj cms)) ->
+  (g0 <= g)%nat -> (msz t v <= G)%nat ->
+  Sim g G inif t v = Some cms.
+Proof.
+  induction G as [|G IH]; intros t v cms inif g0 Ht Hv H Hg HG.
+  { unfold msz in HG. pose proof (vsize_pos v). lia. }
+  rewrite Sim_S. pose proof (H (S g0) (Nat.le_succ_diag_r g0)) as H1. rewrite spec_fold_S in H1.
+  pose proof (H g Hg) as H2.
+  destruct (under t) as [ | |k| |u|u|n0 u|u|u|l|u| ] eqn:Eu;
+    destruct v; cbn [hty] in Hv; rewrite Eu in Hv; try discriminate Hv; try discriminate H1.
+  - (* interface *)
+    apply under_iface in Eu; [|exact Ht]. subst t.
+    apply hty_iface_inv in Hv. destruct Hv as (Hv1 & _ & Hv3).
+    apply (IH t0 v cms true g0 Hv1 Hv3); [|exact Hg|unfold msz in *; cbn [tsize vsize] in HG; lia].
+    intros g' Hg'. specialize (H (S g') (Nat.le_trans _ _ _ Hg' (Nat.le_succ_diag_r g'))).
+    rewrite spec_fold_S in H. exact H.
+  - (* pointer *)
+    apply under_not_ptr in Eu; [|exact Ht]. subst t. cbn [type_ok] in Ht.
+    apply (IH u v cms inif g0 Ht Hv); [|exact Hg|unfold msz in *; cbn [tsize vsize] in HG; lia].
+    intros g' Hg'. specialize (H (S g') (Nat.le_trans _ _ _ Hg' (Nat.le_succ_diag_r g'))).
+    rewrite spec_fold_S in H. exact H.
+  - destruct (opt_all _); discriminate H1.
+  - destruct (opt_all _); discriminate H1.
+  - inversion H1. reflexivity.
+  - rewrite H2. reflexivity.
+  - rewrite H2. reflexivity.
+Qed.
+
+Lemma sfv_Sim ft fv cms : type_ok ft = true -> hty ft fv = true ->
+  sfv ft fv (CObj cms) -> forall g, (msz ft fv < g)%nat -> Sim g (S g) false ft fv = Some cms.
+Proof.
+  intros Ht Hv H g Hg. apply (Sim_obj g (S g) ft fv cms false (S (msz ft fv)) Ht Hv); try lia.
+  intros g' Hg'. apply H. lia.
+Qed.
+
+(* ---------- the compile check, as far as the run needs it ---------- *)
+Definition ccok (t : gtype) : Prop := exists gc, cc gc t = None.
+
+Lemma cc_O t : cc O t = Some feUnsupported. Proof. reflexivity. Qed.
+
+Lemma ccok_inv t : ccok t -> exists gc, cc (S gc) t = None.
+Proof. intros [[|gc] H]; [rewrite cc_O in H; discriminate H|eauto]. Qed.
+
+Lemma ccok_ptr u : ccok (TPtr u) -> ccok u.
+Proof. intro H. apply ccok_inv in H. destruct H as [gc H]. rewrite cc_S in H. exists gc. exact H. Qed.
+Lemma ccok_slice u : ccok (TSlice u) -> ccok u.
+Proof. intro H. apply ccok_inv in H. destruct H as [gc H]. rewrite cc_S in H. exists gc. exact H. Qed.
+Lemma ccok_array n u : ccok (TArray n u) -> ccok u.
+Proof. intro H. apply ccok_inv in H. destruct H as [gc H]. rewrite cc_S in H. exists gc. exact H. Qed.
+Lemma ccok_map u : ccok (TMap u) -> ccok u.
+Proof. intro H. apply ccok_inv in H. destruct H as [gc H]. rewrite cc_S in H. exists gc. exact H. Qed.
+Lemma ccok_named u : ccok (TNamed u) -> ccok u.
+Proof. intro H. apply ccok_inv in H. destruct H as [gc H]. rewrite cc_S in H. exists gc. exact H. Qed.
+
+Lemma ccok_base t : forall m b, ccok t -> base_type t = (m, b) -> ccok b.
+Proof.
+  induction t; intros m b Hc Eb; try (inversion Eb; subst; exact Hc).
+  cbn [base_type] in Eb. destruct (base_type t) as [n' b'] eqn:E. inversion Eb; subst.
+  eapply IHt; [apply ccok_ptr; exact Hc|reflexivity].
+Qed.
+
+Lemma ccok_under_map t et : ccok t -> under t = TMap et -> ccok et.
+Proof.
+  intros Hc Eu. destruct t; try discriminate Eu; cbn [under] in Eu.
+  - inversion Eu; subst. apply ccok_map. exact Hc.
+  - subst. apply ccok_map. apply ccok_named. exact Hc.
+Qed.
+
+Lemma cc_fields_cons gc name tag ft fs :
+  cc_fields gc ((name, tag, ft) :: fs) = None ->
+  cc_fields gc fs = None /\
+  (exported name = true ->
+   let o := snd (parse_tags tag) in
+   t_squash o && t_omitempty o = false /\
+   (t_omit o = false ->
+    if t_squash o then
+      match under (snd (base_type ft)) with
+      | TStruct _ | TMap _ | TMapK _ => cc gc (snd (base_type ft)) = None
+      | _ => True
+      end
+    else cc gc ft = None)).
+Proof.
+  cbn [cc_fields]. fold (cc_fields gc). destruct (exported name); cbn [negb]; [|intro H; split; [exact H|discriminate]].
+  cbv zeta. destruct (t_squash (snd (parse_tags tag)) && t_omitempty (snd (parse_tags tag))); [discriminate|].
+  destruct (t_omit (snd (parse_tags tag))).
+  - intro H. split; [exact H|]. intros _. split; [reflexivity|discriminate].
+  - destruct (t_squash (snd (parse_tags tag))).
+    + destruct (under (snd (base_type ft))) eqn:Eu; intro H;
+        try (destruct (cc gc (snd (base_type ft))) eqn:Ec; [discriminate H|]);
+        try discriminate H;
+        (split; [exact H|]; intros _; split; [reflexivity|]; intros _; try exact I; try reflexivity).
+    + destruct (cc gc ft) eqn:Ec; [discriminate|]. intro H. split; [exact H|].
+      intros _. split; [reflexivity|]. intros _. reflexivity.
+Qed.
+
+(* ---------- the induction ---------- *)
+Definition P12 (f : nat) : Prop :=
+  (forall inl t v evs, type_ok t = true -> hty t v = true -> ccok t -> (vsize v <= f)%nat ->
+     rf f inl t v = (evs, None) ->
+     (inl = false -> okc t v evs) /\
+     (inl = true -> forall fs, t = TStruct fs ->
+        exists ms, evs = flatten_members ms /\ sfv t v (CObj (cvm ms)))) /\
+  (forall t v evs, type_ok t = true -> hty t v = true -> (vsize v < f)%nat ->
+     ftop f t v = (evs, None) -> okc t v evs).
+
+Lemma sfv_nil_iface : sfv TIface GNil CNil.
+Proof. intros g Hg. destruct g; [lia|]. rewrite spec_fold_S. reflexivity. Qed.
+
+Lemma okc_nil_iface : okc TIface GNil [EVal SNil].
+Proof. apply okc_val. exact sfv_nil_iface. Qed.
+
+Lemma okc_iface dt dv evs : okc dt dv evs -> okc TIface (GIface dt dv) evs.
+Proof. intros (tr & E & H). exists tr. split; [exact E|apply sfv_iface; exact H]. Qed.
+
+Lemma Anyr_okc f dt dv evs : P12 f ->
+  type_ok dt = true -> hty dt dv = true -> (vsize dv <= f)%nat ->
+  Anyr f dt dv = (evs, None) -> okc dt dv evs.
+Proof.
+  intros [Hrf _] Ht Hv Hf H. unfold Anyr in H.
+  destruct (cc_type dt) eqn:Ec; [apply ferr_ok in H; contradiction|].
+  assert (Hc : ccok dt) by (eexists; exact Ec).
+  destruct (Hrf false dt dv evs Ht Hv Hc Hf H) as [H1 _]. apply H1. reflexivity.
+Qed.
+
+Lemma hty_iface_nil x : hty TIface x = true ->
+  x = GNil \/ exists dt dv, x = GIface dt dv /\ type_ok dt = true /\ hty dt dv = true.
+Proof.
+  destruct x; try discriminate; [left; reflexivity|]. intro H. right.
+  apply hty_iface_inv in H. destruct H as (H1 & _ & H3). eauto.
+Qed.
+
+Lemma Ielem_okc f x evs : P12 f -> hty TIface x = true -> (vsize x <= f)%nat ->
+  Ielem f x = (evs, None) -> okc TIface x evs.
+Proof.
+  intros [_ Hft] Hv Hf H. unfold Ielem in H.
+  destruct (hty_iface_nil x Hv) as [->|(dt & dv & -> & H1 & H3)].
+  - apply fok_inv in H. subst. apply okc_nil_iface.
+  - apply okc_iface. apply (Hft dt dv evs H1 H3); [|exact H]. cbn [vsize] in Hf. lia.
+Qed.
+
+Lemma Mapval_okc f et x evs : P12 f ->
+  type_ok et = true -> ccok et -> hty et x = true -> (vsize x <= f)%nat ->
+  Mapval f et x = (evs, None) -> okc et x evs.
+Proof.
+  intros HP Ht Hc Hv Hf H. unfold Mapval in H. destruct (is_prim et).
+  - destruct (prim_scalar true et x) eqn:E; [|apply ferr_ok in H; contradiction].
+    apply fok_inv in H. subst. apply okc_val. eapply prim_scalar_sfv; eauto.
+  - destruct (gtype_eqb et TIface) eqn:Ei.
+    + apply gtype_eqb_iface in Ei. subst et. apply (Ielem_okc f x evs HP Hv Hf). exact H.
+    + destruct HP as [Hrf _]. destruct (Hrf false et x evs Ht Hv Hc Hf H) as [H1 _]. apply H1. reflexivity.
+Qed.
+
+Lemma Mapkeys_okc f et kvs evs : P12 f -> type_ok et = true -> ccok et ->
+  forallb (fun kv => all_bytes (fst kv) && hty et (snd kv)) kvs = true ->
+  (vsum_kv kvs <= f)%nat ->
+  Mapkeys f et kvs = (evs, None) ->
+  exists ms, evs = flatten_members ms /\
+    Forall2 (fun kv m => fst m = (fst kv, false) /\ sfv et (snd kv) (cvt (snd m))) kvs ms.
+Proof.
+  intros HP Ht Hc Hv Hf H. unfold Mapkeys in H.
+  apply (seq_members (Mapval f et) (fun x tr => sfv et x (cvt tr))) in H; [exact H|].
+  intros kv e Hkv He. rewrite forallb_forall in Hv. specialize (Hv kv Hkv).
+  apply andb_true_iff in Hv. destruct Hv as [_ Hx]. pose proof (vsum_kv_in kv kvs Hkv).
+  apply (Mapval_okc f et (snd kv) e HP Ht Hc Hx); [lia|exact He].
+Qed.
+
+Lemma Elems_okc f et l evs : P12 f -> type_ok et = true -> ccok et ->
+  forallb (hty et) l = true -> (vsum l <= f)%nat ->
+  Elems f et l = (evs, None) ->
+  exists es, evs = flatten_elems es /\ Forall2 (fun x tr => sfv et x (cvt tr)) l es.
+Proof.
+  intros [Hrf _] Ht Hc Hv Hf H. unfold Elems in H.
+  apply (seq_elems (rf f false et) (fun x tr => sfv et x (cvt tr))) in H; [exact H|].
+  intros x e Hx He. rewrite forallb_forall in Hv. specialize (Hv x Hx). pose proof (vsum_in x l Hx).
+  destruct (Hrf false et x e Ht Hv Hc ltac:(lia) He) as [H1 _]. apply H1. reflexivity.
+Qed.
+
+Lemma glist_vsum v : (vsum (glist v) < vsize v)%nat.
+Proof. destruct v; cbn [glist vsum fold_right vsize]; lia. Qed.
+Lemma gmap_vsum v : (vsum_kv (gmap v) < vsize v)%nat.
+Proof. destruct v; cbn [gmap vsum_kv fold_right vsize]; lia. Qed.
+
+Lemma okc_ext t t' v evs : (forall c, sfv t v c -> sfv t' v c) -> okc t v evs -> okc t' v evs.
+Proof. intros H (tr & E & Hs). exists tr. split; [exact E|apply H; exact Hs]. Qed.
+
+Lemma map_case_okc f et v evs : P12 f -> type_ok et = true -> ccok et -> hty (TMap et) v = true ->
+  (vsize v <= S f)%nat ->
+  (fok [EObjStart (glen v) BAny] ;; Mapkeys f et (gmap v) ;; fok [EObjEnd]) = (evs, None) ->
+  okc (TMap et) v evs.
+Proof.
+  intros HP Ht Hc Hv Hf H. apply fseq_fok_l in H. destruct H as (e2 & H & ->).
+  apply fseq_fok_r in H. destruct H as (e1 & H & ->). pose proof (gmap_vsum v).
+  destruct (Mapkeys_okc f et (gmap v) e1 HP Ht Hc (hty_map_list et v Hv) ltac:(lia) H) as (ms & -> & HF).
+  exists (TObj (glen v) BAny ms). split; [symmetry; apply flatten_obj|].
+  rewrite cvt_obj. apply sfv_map; assumption.
+Qed.
+
+Lemma slice_case_okc f et v evs : P12 f -> type_ok et = true -> ccok et -> hty (TSlice et) v = true ->
+  (vsize v <= S f)%nat ->
+  (fok [EArrStart (glen v) BAny] ;; Elems f et (glist v) ;; fok [EArrEnd]) = (evs, None) ->
+  okc (TSlice et) v evs.
+Proof.
+  intros HP Ht Hc Hv Hf H. apply fseq_fok_l in H. destruct H as (e2 & H & ->).
+  apply fseq_fok_r in H. destruct H as (e1 & H & ->). pose proof (glist_vsum v).
+  destruct (Elems_okc f et (glist v) e1 HP Ht Hc (hty_slice_list et v Hv) ltac:(lia) H) as (es & -> & HF).
+  exists (TArr (glen v) BAny es). split; [symmetry; apply flatten_arr|].
+  rewrite cvt_arr. apply sfv_slice; assumption.
+Qed.
+
+Lemma array_case_okc f n et v evs : P12 f -> type_ok et = true -> ccok et -> hty (TArray n et) v = true ->
+  (vsize v <= S f)%nat ->
+  (fok [EArrStart (glen v) BAny] ;; Elems f et (glist v) ;; fok [EArrEnd]) = (evs, None) ->
+  okc (TArray n et) v evs.
+Proof.
+  intros HP Ht Hc Hv Hf H. apply fseq_fok_l in H. destruct H as (e2 & H & ->).
+  apply fseq_fok_r in H. destruct H as (e1 & H & ->). pose proof (glist_vsum v).
+  destruct (Elems_okc f et (glist v) e1 HP Ht Hc (hty_array_list n et v Hv) ltac:(lia) H) as (es & -> & HF).
+  exists (TArr (glen v) BAny es). split; [symmetry; apply flatten_arr|].
+  rewrite cvt_arr. apply sfv_array; assumption.
+Qed.
+
+Lemma sfv_under t t' v c : under t = under t' -> (tsize t' <= tsize t)%nat ->
+  sfv t' v c -> sfv t v c.
+Proof.
+  intros Hu Hs H g Hg. rewrite (spec_fold_under g t t' v Hu). apply H. unfold msz in *. lia.
+Qed.
+
+Lemma cvt_expand tr : cvt (expand_tree tr) = cvt tr.
+Proof. unfold cvt. rewrite expand_deep_value. reflexivity. Qed.
+
+Lemma Inl2_okc f n bt ft fv evs : P12 f ->
+  type_ok ft = true -> hty ft fv = true -> base_type ft = (n, bt) ->
+  match under bt with TStruct _ | TMap _ | TMapK _ => ccok bt | _ => True end ->
+  (vsize fv <= f)%nat ->
+  Inl2 f n bt fv = (evs, None) ->
+  exists ms, evs = flatten_members ms /\
+    forall g, (msz ft fv < g)%nat -> Sim g (S g) false ft fv = Some (cvm ms).
+Proof.
+  intros HP Ht Hv Eb Hcc Hf H. unfold Inl2 in H.
+  pose proof (base_tsize ft n bt Eb) as Hts.
+  destruct (deref n fv) as [bv|] eqn:Ed.
+  2:{ apply fok_inv in H. subst. exists []. split; [reflexivity|]. intros g Hg.
+      apply (Sim_nilptr g ft n bt fv (S g) Eb Ed Hv). unfold msz in Hg. lia. }
+  destruct (hty_base ft n bt fv bv Ht Hv Eb Ed) as [Hbt Hbv].
+  pose proof (deref_vsize n fv bv Ed) as Hvs.
+  assert (K : forall ms, sfv bt bv (CObj (cvm ms)) ->
+              forall g, (msz ft fv < g)%nat -> Sim g (S g) false ft fv = Some (cvm ms)).
+  { intros ms Hs. apply sfv_Sim; [exact Ht|exact Hv|]. eapply sfv_ptr; eauto. }
+  destruct (under bt) as [ | |k| |u|u|n0 u|u|u|l|u| ] eqn:Eu;
+    try (destruct bv; apply ferr_ok in H; contradiction).
+  - (* interface *)
+    apply under_iface in Eu; [|exact Hbt]. subst bt.
+    destruct (hty_iface_nil bv Hbv) as [->|(dt & dv & -> & H1 & H3)].
+    + apply fok_inv in H. subst. exists []. split; [reflexivity|]. intros g Hg.
+      replace (S g) with (n + S (g - n))%nat by (unfold msz in Hg; lia).
+      rewrite (Sim_ptr g ft n TIface fv GNil _ false Eb Ed). rewrite Sim_S. reflexivity.
+    + destruct (embed_ok_inv _ _ H) as (e0 & He0). rewrite He0 in H.
+      assert (Hdv : (vsize dv <= f)%nat) by (cbn [vsize] in Hvs; lia).
+      destruct (Anyr_okc f dt dv e0 HP H1 H3 Hdv He0) as (tr & -> & Hs).
+      apply embed_flatten in H. destruct H as (len & b & ms & Ex & ->).
+      exists ms. split; [reflexivity|]. apply K. apply sfv_iface.
+      rewrite <- cvt_obj with (len := len) (bt := b). rewrite <- Ex, cvt_expand. exact Hs.
+  - (* map *)
+    assert (Hcu : ccok u) by (eapply ccok_under_map; eauto).
+    assert (Htu : type_ok u = true) by (pose proof (type_ok_under bt Hbt) as Hu; rewrite Eu in Hu; exact Hu).
+    assert (Hmv : hty (TMap u) bv = true).
+    { destruct bv; cbn [hty] in Hbv; rewrite Eu in Hbv; try discriminate Hbv; exact Hbv. }
+    assert (Hsz : (tsize (TMap u) <= tsize bt)%nat).
+    { destruct bt; try discriminate Eu; cbn [under] in Eu; [inversion Eu; subst; lia|subst; cbn [tsize]; lia]. }
+    assert (KM : forall ms,
+       Forall2 (fun kv m => fst m = (fst kv, false) /\ sfv u (snd kv) (cvt (snd m))) (gmap bv) ms ->
+       forall g, (msz ft fv < g)%nat -> Sim g (S g) false ft fv = Some (cvm ms)).
+    { intros ms HF. apply K. apply (sfv_under bt (TMap u)); [rewrite Eu; reflexivity|exact Hsz|].
+      apply sfv_map; assumption. }
+    destruct bv; try (apply fok_inv in H; subst; exists []; split; [reflexivity|]; apply KM; constructor).
+    pose proof (gmap_vsum (GMap kvs)) as Hgv. cbn [gmap] in Hgv.
+    destruct (Mapkeys_okc f u kvs evs HP Htu Hcu (hty_map_list u _ Hmv) ltac:(lia) H) as (ms & -> & HF).
+    exists ms. split; [reflexivity|]. apply KM. exact HF.
+  - (* struct *)
+    destruct bv; try (apply ferr_ok in H; contradiction).
+    destruct bt; try discriminate Eu; [|cbn [under] in Eu; subst; discriminate Hbt].
+    cbn [under] in Eu. destruct HP as [Hrf _].
+    destruct (Hrf true _ _ evs Hbt Hbv Hcc ltac:(lia) H) as [_ H2].
+    destruct (H2 eq_refl _ eq_refl) as (ms & -> & Hs). exists ms. split; [reflexivity|]. apply K. exact Hs.
+Qed.
+
+Lemma Resolved_okc f t' v' evs : P12 f -> type_ok t' = true -> hty t' v' = true ->
+  (vsize v' <= f)%nat -> Resolved f t' v' = (evs, None) -> okc t' v' evs.
+Proof.
+  intros HP Ht Hv Hf H. unfold Resolved in H.
+  destruct t'; try (eapply Anyr_okc; eauto; fail).
+  destruct (hty_iface_nil v' Hv) as [->|(dt & dv & -> & H1 & H3)].
+  - apply fok_inv in H. subst. apply okc_nil_iface.
+  - apply okc_iface. apply (Anyr_okc f dt dv evs HP H1 H3); [cbn [vsize] in Hf; lia|exact H].
+Qed.
+
+Lemma flatten_members_one k tr : flatten_members [(k, false, tr)] = EKey k :: flatten tr.
+Proof. cbn [flatten_members flat_map key_event]. rewrite app_nil_r. reflexivity. Qed.
+
+Lemma Member_okc f name' oe ft fv evs : P12 f ->
+  type_ok ft = true -> hty ft fv = true -> ccok ft -> (vsize fv <= f)%nat ->
+  Member f name' oe ft fv = (evs, None) ->
+  exists m1, evs = flatten_members m1 /\
+    forall g, (msz ft fv < g)%nat ->
+      (oe && spec_empty (S g) ft fv = true /\ m1 = []) \/
+      (oe && spec_empty (S g) ft fv = false /\
+       exists tr, m1 = [(name', false, tr)] /\ spec_fold g ft fv = Some (cvt tr)).
+Proof.
+  intros HP Ht Hv Hc Hf H. unfold Member in H. destruct oe.
+  - pose proof (resolve_spec f ft fv Ht Hv) as HR.
+    destruct (resolve f ft fv) as [[t' v']|] eqn:Er.
+    + apply fseq_fok_l in H. destruct H as (e2 & H & ->). cbn [app].
+      destruct HR as (A & B & C).
+      destruct (resolve_hty f ft fv t' v' Ht Hv Er) as [Ht' Hv'].
+      destruct (Resolved_okc f t' v' e2 HP Ht' Hv' ltac:(lia) H) as (tr & -> & Hs).
+      exists [(name', false, tr)]. split; [symmetry; apply flatten_members_one|].
+      intros g Hg. right. rewrite A. split; [reflexivity|]. exists tr. split; [reflexivity|].
+      apply (C _ Hs). exact Hg.
+    + apply fok_inv in H. subst. exists []. split; [reflexivity|]. intros g Hg. left.
+      rewrite (HR Hf (S g)) by lia. split; reflexivity.
+  - apply fseq_fok_l in H. destruct H as (e2 & H & ->). cbn [app].
+    destruct HP as [Hrf _]. destruct (Hrf false ft fv e2 Ht Hv Hc Hf H) as [H1 _].
+    destruct (H1 eq_refl) as (tr & -> & Hs).
+    exists [(name', false, tr)]. split; [symmetry; apply flatten_members_one|].
+    intros g Hg. right. split; [reflexivity|]. exists tr. split; [reflexivity|]. apply Hs. exact Hg.
+Qed.
+
+Lemma Sfields_cons g name tag ft fs fv vs acc :
+  Sfields g ((name, tag, ft) :: fs) (fv :: vs) acc =
+  if negb (exported name) then Sfields g fs vs acc else
+  let '(tn, o) := parse_tags tag in
+  if t_squash o && t_omitempty o then None
+  else if t_omit o then Sfields g fs vs acc
+  else if t_squash o then
+    match Sim g (S g) false ft fv with
+    | Some ms => Sfields g fs vs (rev ms ++ acc)
+    | None => None
+    end
+  else if t_omitempty o && spec_empty (S g) ft fv then Sfields g fs vs acc
+  else
+    match spec_fold g ft fv with
+    | Some x => Sfields g fs vs ((field_name name tn, x) :: acc)
+    | None => None
+    end.
+Proof. reflexivity. Qed.
+
+Lemma Field1_okc f name tag ft fv e1 : P12 f ->
+  type_ok ft = true -> hty ft fv = true ->
+  (exported name = true ->
+   let o := snd (parse_tags tag) in
+   t_squash o && t_omitempty o = false /\
+   (t_omit o = false ->
+    if t_squash o then
+      match under (snd (base_type ft)) with
+      | TStruct _ | TMap _ | TMapK _ => ccok (snd (base_type ft))
+      | _ => True
+      end
+    else ccok ft)) ->
+  (vsize fv <= f)%nat ->
+  Field1 f name tag ft fv = (e1, None) ->
+  exists m1, e1 = flatten_members m1 /\
+    forall g fs vs acc, (msz ft fv < g)%nat ->
+      Sfields g ((name, tag, ft) :: fs) (fv :: vs) acc = Sfields g fs vs (rev (cvm m1) ++ acc).
+Proof.
+  intros HP Ht Hv Hcc Hf H. unfold Field1 in H.
+  destruct (exported name) eqn:Ex; cbn [negb] in H.
+  2:{ apply fok_inv in H. subst. exists []. split; [reflexivity|]. intros g fs vs acc Hg.
+      rewrite Sfields_cons, Ex. reflexivity. }
+  specialize (Hcc eq_refl). cbv zeta in Hcc. destruct Hcc as [Hso Hcc].
+  destruct (parse_tags tag) as [tn o] eqn:Etag. cbn [snd] in *.
+  destruct (t_omit o) eqn:Eo.
+  { apply fok_inv in H. subst. exists []. split; [reflexivity|]. intros g fs vs acc Hg.
+    rewrite Sfields_cons, Ex, Etag, Hso, Eo. reflexivity. }
+  specialize (Hcc eq_refl).
+  destruct (t_squash o) eqn:Es.
+  - unfold Inl in H. destruct (base_type ft) as [n bt] eqn:Eb. cbn [snd] in Hcc.
+    destruct (Inl2_okc f n bt ft fv e1 HP Ht Hv Eb Hcc Hf H) as (ms & -> & HS).
+    exists ms. split; [reflexivity|]. intros g fs vs acc Hg.
+    cbn [andb] in Hso. rewrite Sfields_cons, Ex, Etag, Es. cbn [negb andb]. rewrite Hso, Eo, (HS g Hg). reflexivity.
+  - destruct (Member_okc f _ _ ft fv e1 HP Ht Hv Hcc Hf H) as (m1 & -> & HS).
+    exists m1. split; [reflexivity|]. intros g fs vs acc Hg.
+    rewrite Sfields_cons, Ex, Etag, Es. cbn [negb andb]. rewrite Eo.
+    destruct (HS g Hg) as [[E1 ->]|[E1 (tr & -> & E2)]]; rewrite E1.
+    + reflexivity.
+    + rewrite E2. reflexivity.
+Qed.
+
+Lemma Fields_okc f : P12 f -> forall fs vs evs gc,
+  type_ok_fields fs = true -> hty_fields fs vs = true -> cc_fields gc fs = None ->
+  (vsum vs <= f)%nat ->
+  Fields f fs vs = (evs, None) ->
+  exists ms, evs = flatten_members ms /\
+    forall g acc, (tsum fs + vsum vs < g)%nat ->
+      Sfields g fs vs acc = Some (CObj (rev acc ++ cvm ms)).
+Proof.
+  intros HP. induction fs as [|[[name tag] ft] fs IH]; intros vs evs gc Ht Hv Hc Hf H.
+  - rewrite Fields_nil_l in H. apply fok_inv in H. subst. exists []. split; [reflexivity|].
+    intros g acc _. cbn [cvm map]. rewrite app_nil_r. reflexivity.
+  - destruct vs as [|fv vs]; [discriminate Hv|].
+    rewrite Fields_cons in H. apply fseq_ok in H. destruct H as (e1 & e2 & H1 & H2 & ->).
+    cbn [type_ok_fields] in Ht. fold type_ok_fields in Ht.
+    apply andb_true_iff in Ht. destruct Ht as [Ht Ht4]. apply andb_true_iff in Ht. destruct Ht as [Ht Ht3].
+    cbn [hty_fields] in Hv. fold hty_fields in Hv. apply andb_true_iff in Hv. destruct Hv as [Hv1 Hv2].
+    apply cc_fields_cons in Hc. destruct Hc as [Hc1 Hc2].
+    cbn [vsum fold_right] in Hf. fold (vsum vs) in Hf.
+    assert (Hcc : exported name = true ->
+       let o := snd (parse_tags tag) in
+       t_squash o && t_omitempty o = false /\
+       (t_omit o = false ->
+        if t_squash o then
+          match under (snd (base_type ft)) with
+          | TStruct _ | TMap _ | TMapK _ => ccok (snd (base_type ft))
+          | _ => True
+          end
+        else ccok ft)).
+    { intro Ex. specialize (Hc2 Ex). cbv zeta in *. destruct Hc2 as [A B]. split; [exact A|].
+      intro Eo. specialize (B Eo). destruct (t_squash (snd (parse_tags tag))).
+      - destruct (under (snd (base_type ft))); try exact I; exists gc; exact B.
+      - exists gc; exact B. }
+    destruct (Field1_okc f name tag ft fv e1 HP Ht3 Hv1 Hcc ltac:(lia) H1) as (m1 & -> & HS1).
+    destruct (IH vs e2 gc Ht4 Hv2 Hc1 ltac:(lia) H2) as (m2 & -> & HS2).
+    exists (m1 ++ m2). split; [symmetry; apply flatten_members_app|].
+    intros g acc Hg. cbn [tsum vsum fold_right] in Hg. fold tsum in Hg. fold (vsum vs) in Hg.
+    rewrite HS1 by (unfold msz; lia). rewrite HS2 by lia.
+    rewrite rev_app_distr, rev_involutive, cvm_app, <- app_assoc. reflexivity.
+Qed.
+
+Lemma Fast_okc f u v evs : P12 f -> type_ok u = true -> hty u v = true -> (vsize v <= f)%nat ->
+  Fast f v u = Some (evs, None) -> okc u v evs.
+Proof.
+  intros HP Ht Hv Hf HF. unfold Fast in HF.
+  destruct (prim_fold true u v) as [pe|] eqn:Ep.
+  - inversion HF; subst. eapply prim_fold_okc; eauto.
+  - destruct u as [ | |k| |u|u|n0 u|u|u|l|u| ]; try discriminate HF.
+    + destruct u; try discriminate HF. apply Some_inj in HF. rename HF into H.
+      apply fseq_fok_l in H. destruct H as (e2 & H & ->).
+      apply fseq_fok_r in H. destruct H as (e1 & H & ->).
+      apply (seq_elems (Ielem f) (fun x tr => sfv TIface x (cvt tr))) in H.
+      * destruct H as (es & -> & HF). exists (TArr (glen v) BAny es).
+        split; [symmetry; apply flatten_arr|]. rewrite cvt_arr. apply sfv_slice; assumption.
+      * intros x e Hx He. pose proof (hty_slice_list _ _ Hv) as Hl. rewrite forallb_forall in Hl.
+        pose proof (vsum_in x _ Hx). pose proof (glist_vsum v).
+        exact (Ielem_okc f x e HP (Hl x Hx) ltac:(lia) He).
+    + destruct u; try discriminate HF. apply Some_inj in HF. rename HF into H.
+      apply fseq_fok_l in H. destruct H as (e2 & H & ->).
+      apply fseq_fok_r in H. destruct H as (e1 & H & ->).
+      pose proof (hty_map_list _ _ Hv) as Hl.
+      apply (seq_members (Ielem f) (fun x tr => sfv TIface x (cvt tr))) in H.
+      * destruct H as (ms & -> & HF). exists (TObj (glen v) BAny ms).
+        split; [symmetry; apply flatten_obj|]. rewrite cvt_obj. apply sfv_map; assumption.
+      * intros kv e Hkv He. rewrite forallb_forall in Hl. specialize (Hl kv Hkv).
+        apply andb_true_iff in Hl. destruct Hl as [_ Hx].
+        pose proof (vsum_kv_in kv _ Hkv). pose proof (gmap_vsum v).
+        exact (Ielem_okc f (snd kv) e HP Hx ltac:(lia) He).
+Qed.
+
+Theorem P12_all : forall f, P12 f.
+Proof.
+  induction f as [|f IH].
+  - split.
+    + intros inl t v evs _ _ _ _ H. rewrite rf_O in H. discriminate H.
+    + intros t v evs _ _ _ H. rewrite ftop_O in H. discriminate H.
+  - split.
+    + intros inl t v evs Ht Hv Hc Hf H. rewrite rf_S in H.
+      destruct (prim_fold false t v) as [pe|] eqn:Ep.
+      { apply fok_inv in H. subst. split.
+        - intros _. eapply prim_fold_okc; eauto.
+        - intros _ fs E. subst t. discriminate Ep. }
+      destruct t as [ | |k| |u|u|n0 u|u|u|fs|u| ];
+        try (apply ferr_ok in H; contradiction).
+      * (* interface *)
+        split; [intros _|intros _ fs E; discriminate E].
+        destruct (hty_iface_nil v Hv) as [->|(dt & dv & -> & H1 & H3)].
+        -- apply fok_inv in H. subst. apply okc_nil_iface.
+        -- apply okc_iface. apply (Anyr_okc f dt dv evs IH H1 H3); [cbn [vsize] in Hf; lia|exact H].
+      * (* pointer *)
+        split; [intros _|intros _ fs E; discriminate E].
+        destruct (base_type (TPtr u)) as [n bt] eqn:Eb.
+        destruct (deref n v) as [bv|] eqn:Ed.
+        -- destruct (hty_base _ _ _ _ _ Ht Hv Eb Ed) as [Hbt Hbv].
+           pose proof (deref_vsize n v bv Ed) as Hvs.
+           assert (Hn : (1 <= n)%nat).
+           { cbn [base_type] in Eb. destruct (base_type u). inversion Eb. lia. }
+           destruct IH as [Hrf _].
+           destruct (Hrf false bt bv evs Hbt Hbv (ccok_base _ _ _ Hc Eb) ltac:(lia) H) as [H1 _].
+           destruct (H1 eq_refl) as (tr & -> & Hs). exists tr. split; [reflexivity|].
+           eapply sfv_ptr; eauto.
+        -- apply fok_inv in H. subst. apply okc_val. eapply sfv_nilptr; eauto.
+      * (* slice *)
+        split; [intros _|intros _ fs E; discriminate E].
+        exact (slice_case_okc f u v evs IH Ht (ccok_slice _ Hc) Hv Hf H).
+      * (* array *)
+        split; [intros _|intros _ fs E; discriminate E].
+        cbn [type_ok] in Ht. apply andb_true_iff in Ht. destruct Ht as [_ Ht].
+        exact (array_case_okc f n0 u v evs IH Ht (ccok_array _ _ Hc) Hv Hf H).
+      * (* map *)
+        split; [intros _|intros _ fs E; discriminate E].
+        exact (map_case_okc f u v evs IH Ht (ccok_map _ Hc) Hv Hf H).
+      * (* struct *)
+        destruct v; try (apply ferr_ok in H; contradiction).
+        rewrite type_ok_struct in Ht. rewrite hty_struct in Hv.
+        apply ccok_inv in Hc. destruct Hc as [gc Hc]. rewrite cc_S in Hc.
+        rewrite vsize_struct in Hf.
+        assert (KS : forall ms,
+          (forall g acc, (tsum fs + vsum vs < g)%nat -> Sfields g fs vs acc = Some (CObj (rev acc ++ cvm ms))) ->
+          sfv (TStruct fs) (GStruct vs) (CObj (cvm ms))).
+        { intros ms HS g Hg. unfold msz in Hg. rewrite tsize_struct, vsize_struct in Hg.
+          destruct g as [|g]; [lia|]. rewrite spec_fold_S. cbn [under]. rewrite HS by lia. reflexivity. }
+        destruct inl.
+        -- split; [discriminate|]. intros _ fs0 _.
+           destruct (Fields_okc f IH fs vs evs gc Ht Hv Hc ltac:(lia) H) as (ms & -> & HS).
+           exists ms. split; [reflexivity|]. apply KS. exact HS.
+        -- split; [intros _|discriminate].
+           apply fseq_fok_l in H. destruct H as (e2 & H & ->).
+           apply fseq_fok_r in H. destruct H as (e1 & H & ->).
+           destruct (Fields_okc f IH fs vs e1 gc Ht Hv Hc ltac:(lia) H) as (ms & -> & HS).
+           exists (TObj (count_fields fs) BAny ms). split; [symmetry; apply flatten_obj|].
+           rewrite cvt_obj. apply KS. exact HS.
+      * (* named *)
+        split; [intros _|intros _ fs E; discriminate E].
+        cbn [type_ok] in Ht. apply andb_true_iff in Ht. destruct Ht as [Hn Ht].
+        rewrite (hty_named_ok u v Hn) in Hv. apply ccok_named in Hc.
+        apply (okc_ext u); [intros c; apply sfv_named; exact Hn|].
+        destruct u as [ | |k| |u|u|n0 u|u|u|fs|u| ]; try discriminate Hn;
+          try (destruct (prim_scalar false _ v) eqn:E; [|apply ferr_ok in H; contradiction];
+               apply fok_inv in H; subst; apply okc_val; eapply prim_scalar_sfv; eauto; fail).
+        -- exact (slice_case_okc f u v evs IH Ht (ccok_slice _ Hc) Hv Hf H).
+        -- cbn [type_ok] in Ht. apply andb_true_iff in Ht. destruct Ht as [_ Ht].
+           exact (array_case_okc f n0 u v evs IH Ht (ccok_array _ _ Hc) Hv Hf H).
+        -- exact (map_case_okc f u v evs IH Ht (ccok_map _ Hc) Hv Hf H).
+    + intros t v evs Ht Hv Hf H. rewrite ftop_S in H.
+      assert (Hf' : (vsize v <= f)%nat) by lia.
+      destruct (Fast f v t) as [r|] eqn:EF; [subst r; eapply Fast_okc; eauto|].
+      destruct t as [ | |k| |u|u|n0 u|u|u|fs|u| ]; try (exact (Anyr_okc f _ v evs IH Ht Hv Hf' H)).
+      assert (Hn := Ht). cbn [type_ok] in Hn. apply andb_true_iff in Hn. destruct Hn as [Hn Hu].
+      destruct u as [ | |k| |u|u|n0 u|u|u|fs|u| ]; try (exact (Anyr_okc f _ v evs IH Ht Hv Hf' H)).
+      * destruct (Fast f v (TSlice u)) as [r|] eqn:EF2; [|exact (Anyr_okc f _ v evs IH Ht Hv Hf' H)].
+        subst r. rewrite (hty_named_ok _ v Hn) in Hv.
+        apply (okc_ext (TSlice u)); [intros c; apply sfv_named; exact Hn|]. eapply Fast_okc; eauto.
+      * destruct (Fast f v (TMap u)) as [r|] eqn:EF2; [|exact (Anyr_okc f _ v evs IH Ht Hv Hf' H)].
+        subst r. rewrite (hty_named_ok _ v Hn) in Hv.
+        apply (okc_ext (TMap u)); [intros c; apply sfv_named; exact Hn|]. eapply Fast_okc; eauto.
+Qed.
+
+Lemma fold_value_okc t v evs :
+  has_type t v = true -> fold_value t v = (evs, None) -> okc t v evs.
+Proof.
+  unfold has_type. intros Hh H. apply andb_true_iff in Hh. destruct Hh as [Ht Hv].
+  destruct (P12_all (4 * (tsize t + vsize v) + 8)) as [_ Hft].
+  assert (Hf : (vsize v < 4 * (tsize t + vsize v) + 8)%nat) by lia.
+  unfold fold_value in H.
+  destruct v; try exact (Hft _ _ _ Ht Hv Hf H).
+  destruct t; exact (Hft _ _ _ Ht Hv Hf H).
+Qed.
+
+(* C12 for Fold, any sufficient fuel of the specification *)
+Theorem C12_fold_fuel : forall t v evs F,
+  has_type t v = true -> fold_value t v = (evs, None) -> (tsize t + vsize v < F)%nat ->
+  exists tr, stream_tree evs = Some tr /\ spec_fold F t v = Some (cv (value_of tr)).
+Proof.
+  intros t v evs F Hh H HF. destruct (fold_value_okc t v evs Hh H) as (tr & -> & Hs).
+  exists (norm tr). split; [apply stream_tree_flatten|]. rewrite value_of_norm. apply Hs. exact HF.
+Qed.
+Print Assumptions C12_fold_fuel.
+
+(* C12: the events of a successful fold describe exactly the documented value *)
+Theorem C12_fold : forall t v evs,
+  has_type t v = true -> fold_value t v = (evs, None) ->
+  exists tr, stream_tree evs = Some tr /\
+             spec_fold (4 * (tsize t + vsize v) + 8) t v = Some (cv (value_of tr)).
+Proof. intros t v evs Hh H. apply C12_fold_fuel; [exact Hh|exact H|lia]. Qed.
+Print Assumptions C12_fold.
+
+(* what the documentation refuses, Fold refuses (no supportedness hypothesis needed) *)
+Theorem C12_fold_refuses : forall t v F,
+  has_type t v = true -> (tsize t + vsize v < F)%nat -> spec_fold F t v = None ->
+  exists e, snd (fold_value t v) = Some e.
+Proof.
+  intros t v F Hh HF Hn. destruct (fold_value t v) as [evs [e|]] eqn:E; [exists e; reflexivity|].
+  destruct (C12_fold_fuel t v evs F Hh E HF) as (tr & _ & Hs). rewrite Hs in Hn. discriminate Hn.
+Qed.
+Print Assumptions C12_fold_refuses.
+
+(* C12_fold_accepts is false as stated: the documented mapping skips an empty omitempty
+   field without looking at its type, the compile step of the dynamic type does not *)
+Definition acc_cex_t := TSlice TIface.
+Definition acc_cex_v :=
+  GList [GIface (TStruct [(s_A, tg [s_omitempty], TPtr TUnsup)]) (GStruct [GNil])].
+Example C12_fold_accepts_counterexample :
+  has_type acc_cex_t acc_cex_v = true /\
+  spec_supported 100 acc_cex_t = true /\
+  spec_fold 100 acc_cex_t acc_cex_v = Some (CArr [CObj []]) /\
+  fold_value acc_cex_t acc_cex_v = ([EArrStart 1 BAny], Some feUnsupported).
+Proof. vm_compute. repeat split. Qed.
+Print Assumptions C12_fold_accepts_counterexample.
+
+(* second counterexample: an inlined interface holding a *interface{} that points to a
+   nil interface: no members according to the documented mapping, "no object" for Fold *)
+Definition acc_cex2_t := TStruct [(s_A, tg [s_inline], TIface)].
+Definition acc_cex2_v := GStruct [GIface (TPtr TIface) (GPtr GNil)].
+Example C12_fold_accepts_counterexample2 :
+  has_type acc_cex2_t acc_cex2_v = true /\
+  spec_supported 100 acc_cex2_t = true /\
+  spec_fold 100 acc_cex2_t acc_cex2_v = Some (CObj []) /\
+  fold_value acc_cex2_t acc_cex2_v = ([EObjStart (-1) BAny], Some feInlineNoObject).
+Proof. vm_compute. repeat split. Qed.
+Print Assumptions C12_fold_accepts_counterexample2.
+
+(* ====================================================================== *)
+(* Part 6: the converse - what the documentation accepts, Fold accepts,     *)
+(* provided the dynamic types compile and no interface holds a pointer to   *)
+(* an interface                                                            *)
+(* ====================================================================== *)
+
+Definition is_none {A} (o : option A) : bool := match o with None => true | Some _ => false end.
+
+Fixpoint dyn_ok (v : gvalue) : bool :=
+  match v with
+  | GPtr x => dyn_ok x
+  | GList l => forallb dyn_ok l
+  | GMap kvs => forallb (fun kv => dyn_ok (snd kv)) kvs
+  | GStruct l => forallb dyn_ok l
+  | GIface dt dv => is_none (cc_type dt) && negb (is_iface (snd (base_type dt))) && dyn_ok dv
+  | _ => true
+  end.
+
+(* ---------- the compile check with enough fuel ---------- *)
+Lemma base_tsize_le t : (tsize (snd (base_type t)) <= tsize t)%nat.
+Proof.
+  destruct (base_type t) as [n b] eqn:E. cbn [snd]. rewrite (base_tsize t n b E). lia.
+Qed.
+
+Lemma cc_enough : forall gc t, cc gc t = None -> forall g, (tsize t < g)%nat -> cc g t = None.
+Proof.
+  induction gc as [|gc IH]; intros t H g Hg; [rewrite cc_O in H; discriminate H|].
+  destruct g as [|g]; [lia|]. rewrite cc_S in *.
+  destruct t as [ | |k| |u|u|n0 u|u|u|l|u| ]; try reflexivity; try discriminate H;
+    try (apply IH; [exact H|cbn [tsize] in Hg; lia]).
+  rewrite tsize_struct in Hg. assert (Hl : (tsum l <= g)%nat) by lia. clear Hg.
+  induction l as [|[[name tag] ft] l IHl]; [reflexivity|].
+  cbn [tsum] in Hl. fold tsum in Hl. cbn [cc_fields] in *. fold (cc_fields gc) in *. fold (cc_fields g).
+  destruct (negb (exported name)); [apply IHl; [exact H|lia]|]. cbv zeta in *.
+  destruct (t_squash (snd (parse_tags tag)) && t_omitempty (snd (parse_tags tag))); [discriminate H|].
+  destruct (t_omit (snd (parse_tags tag))); [apply IHl; [exact H|lia]|].
+  pose proof (base_tsize_le ft) as Hb.
+  destruct (t_squash (snd (parse_tags tag))).
+  - destruct (under (snd (base_type ft))); try discriminate H; try (apply IHl; [exact H|lia]);
+      (destruct (cc gc (snd (base_type ft))) eqn:Ec; [discriminate H|];
+       rewrite (IH _ Ec g) by lia; apply IHl; [exact H|lia]).
+  - destruct (cc gc ft) eqn:Ec; [discriminate H|]. rewrite (IH _ Ec g) by lia. apply IHl; [exact H|lia].
+Qed.
+
+Lemma ccok_cc_type t : ccok t -> cc_type t = None.
+Proof. intros [gc H]. unfold cc_type. apply (cc_enough gc t H). lia. Qed.
+
+(* ---------- inversion of the specification ---------- *)
+Definition sp (t : gtype) (v : gvalue) : Prop := exists g c, spec_fold g t v = Some c.
+
+Lemma opt_all_some {A B} (f : A -> option B) l ys :
+  opt_all (map f l) = Some ys -> forall x, In x l -> exists y, f x = Some y.
+Proof.
+  revert ys. induction l as [|a l IH]; intros ys H x Hx; [contradiction|].
+  cbn [map opt_all] in H. destruct (f a) as [y|] eqn:Ea; [|discriminate H].
+  destruct (opt_all (map f l)) as [ys'|] eqn:El; [|discriminate H].
+  destruct Hx as [->|Hx]; [eauto|]. eapply IH; eauto.
+Qed.
+
+Lemma sp_elems t v et : sp t v -> (under t = TSlice et \/ exists n, under t = TArray n et) ->
+  forall x, In x (glist v) -> sp et x.
+Proof.
+  intros (g & c & H) Hu x Hx. destruct g as [|g]; [rewrite spec_fold_O in H; discriminate H|].
+  rewrite spec_fold_S in H. destruct v; try contradiction. cbn [glist] in Hx.
+  destruct Hu as [Eu|[n Eu]]; rewrite Eu in H;
+    (destruct (opt_all (map (spec_fold g et) vs)) eqn:Eo; [|discriminate H];
+     destruct (opt_all_some _ _ _ Eo x Hx) as [y Hy]; exists g, y; exact Hy).
+Qed.
+
+Lemma sp_mapvals t v et : sp t v -> under t = TMap et ->
+  forall kv, In kv (gmap v) -> sp et (snd kv).
+Proof.
+  intros (g & c & H) Eu kv Hkv. destruct g as [|g]; [rewrite spec_fold_O in H; discriminate H|].
+  rewrite spec_fold_S, Eu in H. destruct v; try contradiction. cbn [gmap] in Hkv.
+  match type of H with match opt_all (map ?F kvs) with _ => _ end = _ =>
+    destruct (opt_all (map F kvs)) eqn:Eo; [|discriminate H];
+    destruct (opt_all_some F _ _ Eo kv Hkv) as [y Hy] end.
+  cbv beta in Hy. destruct (spec_fold g et (snd kv)) as [c'|] eqn:Ec; [|discriminate Hy].
+  exists g, c'. exact Ec.
+Qed.
+
+Lemma sp_base t : forall m b v bv, sp t v -> base_type t = (m, b) -> deref m v = Some bv -> sp b bv.
+Proof.
+  induction t; intros m b v bv Hs Hb Hd;
+    try (inversion Hb; subst; cbn [deref] in Hd; inversion Hd; subst; exact Hs).
+  cbn [base_type] in Hb. destruct (base_type t) as [n' b'] eqn:E. inversion Hb; subst.
+  cbn [deref] in Hd. destruct v; try discriminate Hd.
+  destruct Hs as (g & c & H). destruct g as [|g]; [rewrite spec_fold_O in H; discriminate H|].
+  rewrite spec_fold_S in H. cbn [under] in H. eapply IHt; eauto. exists g, c. exact H.
+Qed.
+
+Lemma sp_iface dt dv : sp TIface (GIface dt dv) -> sp dt dv.
+Proof.
+  intros (g & c & H). destruct g as [|g]; [rewrite spec_fold_O in H; discriminate H|].
+  rewrite spec_fold_S in H. exists g, c. exact H.
+Qed.
+
+Lemma sp_named u v : named_ok u = true -> sp (TNamed u) v -> sp u v.
+Proof.
+  intros Hn (g & c & H). exists g, c. rewrite <- H. apply spec_fold_under.
+  destruct u; try discriminate Hn; reflexivity.
+Qed.
+
+Lemma dyn_ok_deref m : forall v bv, dyn_ok v = true -> deref m v = Some bv -> dyn_ok bv = true.
+Proof.
+  induction m as [|m IH]; intros v bv Hv Hd; cbn [deref] in Hd; [inversion Hd; subst; exact Hv|].
+  destruct v; try discriminate Hd. exact (IH v bv Hv Hd).
+Qed.
+
+Lemma dyn_ok_glist v x : dyn_ok v = true -> In x (glist v) -> dyn_ok x = true.
+Proof.
+  destruct v; try contradiction. cbn [dyn_ok glist]. intros H Hx. rewrite forallb_forall in H. apply H, Hx.
+Qed.
+
+Lemma dyn_ok_gmap v kv : dyn_ok v = true -> In kv (gmap v) -> dyn_ok (snd kv) = true.
+Proof.
+  destruct v; try contradiction. cbn [dyn_ok gmap]. intros H Hx. rewrite forallb_forall in H. apply (H kv), Hx.
+Qed.
+
+Lemma Sfields_shape g : forall fs vs acc c, Sfields g fs vs acc = Some c -> exists cms, c = CObj cms.
+Proof.
+  induction fs as [|[[name tag] ft] fs IH]; intros vs acc c H.
+  - inversion H. eauto.
+  - destruct vs as [|fv vs]; [inversion H; eauto|]. rewrite Sfields_cons in H.
+    destruct (negb (exported name)); [eapply IH; eauto|].
+    destruct (parse_tags tag) as [tn o].
+    destruct (t_squash o && t_omitempty o); [discriminate H|].
+    destruct (t_omit o); [eapply IH; eauto|].
+    destruct (t_squash o).
+    + destruct (Sim g (S g) false ft fv); [eapply IH; eauto|discriminate H].
+    + destruct (t_omitempty o && spec_empty (S g) ft fv); [eapply IH; eauto|].
+      destruct (spec_fold g ft fv); [eapply IH; eauto|discriminate H].
+Qed.
+
+Lemma spec_obj_shape g b bv c :
+  match under b with TStruct _ | TMap _ => True | _ => False end ->
+  spec_fold g b bv = Some c -> exists cms, c = CObj cms.
+Proof.
+  intros Hu H. destruct g as [|g]; [rewrite spec_fold_O in H; discriminate H|].
+  rewrite spec_fold_S in H. destruct (under b); try contradiction.
+  - destruct bv; try discriminate H; [inversion H; eauto|].
+    match type of H with match ?X with _ => _ end = _ => destruct X; [|discriminate H] end.
+    inversion H; eauto.
+  - destruct bv; try discriminate H. eapply Sfields_shape; eauto.
+Qed.
+
+(* ---------- success of the loops ---------- *)
+Lemma fseq_intro (a k : fr) e1 e2 : a = (e1, None) -> k = (e2, None) -> (a ;; k) = (e1 ++ e2, None).
+Proof. intros -> ->. reflexivity. Qed.
+
+Lemma seq_ok {A} (g : A -> fr) l :
+  (forall x, In x l -> exists e, g x = (e, None)) ->
+  exists e, fold_right (fun x acc => g x ;; acc) (fok []) l = (e, None).
+Proof.
+  induction l as [|a l IH]; intro H; [exists []; reflexivity|].
+  destruct (H a (or_introl eq_refl)) as [e1 H1].
+  destruct (IH (fun x Hx => H x (or_intror Hx))) as [e2 H2].
+  exists (e1 ++ e2). cbn [fold_right]. apply fseq_intro; assumption.
+Qed.
+
+Lemma seq_members_ok {A} (h : A -> fr) (kvs : list (bytes * A)) :
+  (forall kv, In kv kvs -> exists e, h (snd kv) = (e, None)) ->
+  exists e, fold_right (fun kv acc => fok [EKey (fst kv)] ;; h (snd kv) ;; acc) (fok []) kvs = (e, None).
+Proof.
+  induction kvs as [|a l IH]; intro H; [exists []; reflexivity|].
+  destruct (H a (or_introl eq_refl)) as [e1 H1].
+  destruct (IH (fun x Hx => H x (or_intror Hx))) as [e2 H2].
+  eexists. cbn [fold_right]. apply fseq_intro; [reflexivity|]. apply fseq_intro; eassumption.
+Qed.
+
+Lemma wrap_ok (a : fr) l1 l2 : (exists e, a = (e, None)) -> exists e, (fok l1 ;; a ;; fok l2) = (e, None).
+Proof.
+  intros [e H]. eexists. apply fseq_intro; [reflexivity|]. apply fseq_intro; [exact H|reflexivity].
+Qed.
+
+Lemma prim_scalar_some b t v : is_prim t = true -> hty t v = true -> exists s, prim_scalar b t v = Some s.
+Proof.
+  intros Hp Hv. destruct t; try discriminate Hp; destruct v; try discriminate Hv; cbn [prim_scalar]; eauto.
+Qed.
+
+(* an object value passes the ExpectObjVisitor *)
+Lemma embed_succeeds tr cms : cvt tr = CObj cms -> exists out, embed_obj (flatten tr, None) = (out, None).
+Proof.
+  intro Hc. unfold embed_obj. rewrite <- expand_deep_is_flatten.
+  pose proof (noext_expand tr) as Hn.
+  assert (Hs : exists len bt ms, expand_tree tr = TObj len bt ms).
+  { destruct tr as [s r|len bt es|len bt ms|bt es|bt ms]; cbn [expand_tree]; eauto;
+      unfold cvt in Hc; cbn [value_of cv] in Hc; try discriminate Hc.
+    destruct s; discriminate Hc. }
+  destruct Hs as (len & bt & ms & E). rewrite E in *. cbn [noext] in Hn.
+  rewrite flatten_obj. cbn [expect_obj Z.eqb].
+  rewrite (expect_skips_members ms Hn 1 [EObjEnd] []) by lia.
+  cbn [expect_obj Z.eqb]. eexists. reflexivity.
+Qed.
+
+(* ---------- "good": everything the run needs to know about a typed value ---------- *)
+Definition good (t : gtype) (v : gvalue) : Prop :=
+  type_ok t = true /\ hty t v = true /\ ccok t /\ dyn_ok v = true /\ sp t v.
+
+Lemma good_iface dt dv : good TIface (GIface dt dv) ->
+  good dt dv /\ is_iface (snd (base_type dt)) = false.
+Proof.
+  intros (Ht & Hv & Hc & Hd & Hs). apply hty_iface_inv in Hv. destruct Hv as (H1 & _ & H3).
+  cbn [dyn_ok] in Hd. apply andb_true_iff in Hd. destruct Hd as [Hd Hd3].
+  apply andb_true_iff in Hd. destruct Hd as [Hd1 Hd2]. apply negb_true_iff in Hd2.
+  split; [|exact Hd2]. split; [exact H1|]. split; [exact H3|]. split.
+  - exists (S (tsize dt)). unfold cc_type in Hd1. destruct (cc (S (tsize dt)) dt); [discriminate Hd1|reflexivity].
+  - split; [exact Hd3|apply sp_iface; exact Hs].
+Qed.
+
+Lemma good_base t m b v bv : good t v -> base_type t = (m, b) -> deref m v = Some bv -> good b bv.
+Proof.
+  intros (Ht & Hv & Hc & Hd & Hs) Eb Ed. destruct (hty_base t m b v bv Ht Hv Eb Ed) as [Hbt Hbv].
+  split; [exact Hbt|]. split; [exact Hbv|]. split; [eapply ccok_base; eauto|].
+  split; [eapply dyn_ok_deref; eauto|eapply sp_base; eauto].
+Qed.
+
+Lemma good_named u v : named_ok u = true -> good (TNamed u) v -> good u v.
+Proof.
+  intros Hn (Ht & Hv & Hc & Hd & Hs). cbn [type_ok] in Ht. apply andb_true_iff in Ht.
+  split; [apply Ht|]. split; [rewrite <- (hty_named_ok u v Hn); exact Hv|].
+  split; [apply ccok_named; exact Hc|]. split; [exact Hd|apply sp_named; assumption].
+Qed.
+
+Lemma good_slice_elem et v x : good (TSlice et) v -> In x (glist v) -> good et x.
+Proof.
+  intros (Ht & Hv & Hc & Hd & Hs) Hx. split; [exact Ht|]. split.
+  - pose proof (hty_slice_list et v Hv) as Hl. rewrite forallb_forall in Hl. apply Hl, Hx.
+  - split; [apply ccok_slice; exact Hc|]. split; [eapply dyn_ok_glist; eauto|].
+    eapply sp_elems; eauto.
+Qed.
+
+Lemma good_array_elem n et v x : good (TArray n et) v -> In x (glist v) -> good et x.
+Proof.
+  intros (Ht & Hv & Hc & Hd & Hs) Hx. cbn [type_ok] in Ht. apply andb_true_iff in Ht. split; [apply Ht|]. split.
+  - pose proof (hty_array_list n et v Hv) as Hl. rewrite forallb_forall in Hl. apply Hl, Hx.
+  - split; [eapply ccok_array; exact Hc|]. split; [eapply dyn_ok_glist; eauto|].
+    eapply sp_elems; eauto. right. exists n. reflexivity.
+Qed.
+
+Lemma good_map_elem et v kv : good (TMap et) v -> In kv (gmap v) -> good et (snd kv).
+Proof.
+  intros (Ht & Hv & Hc & Hd & Hs) Hx. split; [exact Ht|]. split.
+  - pose proof (hty_map_list et v Hv) as Hl. rewrite forallb_forall in Hl. specialize (Hl kv Hx).
+    apply andb_true_iff in Hl. apply Hl.
+  - split; [apply ccok_map; exact Hc|]. split; [eapply dyn_ok_gmap; eauto|].
+    eapply sp_mapvals; eauto.
+Qed.
+
+Lemma vsize_glist_in v x : In x (glist v) -> (vsize x < vsize v)%nat.
+Proof. intro H. pose proof (vsum_in x _ H). pose proof (glist_vsum v). lia. Qed.
+Lemma vsize_gmap_in v kv : In kv (gmap v) -> (vsize (snd kv) < vsize v)%nat.
+Proof. intro H. pose proof (vsum_kv_in kv _ H). pose proof (gmap_vsum v). lia. Qed.
+
+(* ---------- inversion of inline_members ---------- *)
+Lemma Sim_base_inv g t : forall G inif m b v bv ms,
+  Sim g G inif t v = Some ms -> base_type t = (m, b) -> deref m v = Some bv ->
+  exists G', Sim g (S G') inif b bv = Some ms.
+Proof.
+  induction t; intros G inif m b v bv ms H Hb Hd;
+    try (inversion Hb; subst; cbn [deref] in Hd; inversion Hd; subst;
+         destruct G as [|G]; [rewrite Sim_O in H; discriminate H|exists G; exact H]).
+  cbn [base_type] in Hb. destruct (base_type t) as [n' b'] eqn:E. inversion Hb; subst.
+  cbn [deref] in Hd. destruct v; try discriminate Hd.
+  destruct G as [|G]; [rewrite Sim_O in H; discriminate H|].
+  rewrite Sim_S in H. cbn [under] in H. eapply IHt; eauto.
+Qed.
+
+Lemma Sim_nilptr_true g t : forall G m b v,
+  base_type t = (m, b) -> deref m v = None -> hty t v = true -> Sim g G true t v = None.
+Proof.
+  induction t; intros G m b v Hb Hd Hv;
+    try (inversion Hb; subst; cbn [deref] in Hd; discriminate Hd).
+  cbn [base_type] in Hb. destruct (base_type t) as [n' b'] eqn:E. inversion Hb; subst.
+  destruct G as [|G]; [apply Sim_O|]. rewrite Sim_S. cbn [under].
+  destruct v; try discriminate Hv; [reflexivity|].
+  cbn [deref] in Hd. cbn [hty under] in Hv. eapply IHt; eauto.
+Qed.
+
+Definition objty (b : gtype) : Prop := match under b with TStruct _ | TMap _ => True | _ => False end.
+
+(* at a base type (no pointer), inline_members is the object value of a struct or map *)
+Lemma Sim_at_base g G inif b bv ms :
+  type_ok b = true -> hty b bv = true -> (forall u, b <> TPtr u) -> is_iface b = false ->
+  Sim g (S G) inif b bv = Some ms ->
+  objty b /\ exists g', spec_fold g' b bv = Some (CObj ms).
+Proof.
+  intros Ht Hv Hnp Hni H. rewrite Sim_S in H. unfold objty.
+  destruct (under b) as [ | |k| |u|u|n0 u|u|u|l|u| ] eqn:Eu;
+    try (destruct bv; discriminate H).
+  - apply under_iface in Eu; [|exact Ht]. subst b. discriminate Hni.
+  - apply under_not_ptr in Eu; [|exact Ht]. exfalso. exact (Hnp u Eu).
+  - split; [exact I|].
+    destruct bv; cbn [hty] in Hv; rewrite Eu in Hv; try discriminate Hv.
+    + inversion H; subst. exists 1%nat. rewrite spec_fold_S, Eu. reflexivity.
+    + exists g. destruct (spec_fold g b (GMap kvs)) as [[]|]; try discriminate H. inversion H; reflexivity.
+  - split; [exact I|].
+    destruct bv; cbn [hty] in Hv; rewrite Eu in Hv; try discriminate Hv.
+    exists g. destruct (spec_fold g b (GStruct vs)) as [[]|]; try discriminate H. inversion H; reflexivity.
+Qed.
+
+Lemma Sim_true_inv g G dt dv ms :
+  type_ok dt = true -> hty dt dv = true -> is_iface (snd (base_type dt)) = false ->
+  Sim g G true dt dv = Some ms ->
+  exists m b bv, base_type dt = (m, b) /\ deref m dv = Some bv /\ objty b /\
+                 exists g', spec_fold g' b bv = Some (CObj ms).
+Proof.
+  intros Ht Hv Hni H. destruct (base_type dt) as [m b] eqn:Eb. cbn [snd] in Hni.
+  destruct (deref m dv) as [bv|] eqn:Ed.
+  - destruct (Sim_base_inv g dt G true m b dv bv ms H Eb Ed) as [G' H'].
+    destruct (hty_base dt m b dv bv Ht Hv Eb Ed) as [Hbt Hbv].
+    destruct (Sim_at_base g G' true b bv ms Hbt Hbv (base_type_not_ptr dt m b Eb) Hni H') as [Ho Hs].
+    exists m, b, bv. auto.
+  - rewrite (Sim_nilptr_true g dt G m b dv Eb Ed Hv) in H. discriminate H.
+Qed.
+
+Lemma ccok_not_mapk bt u : ccok bt -> under bt = TMapK u -> False.
+Proof.
+  intros Hc Eu. apply ccok_inv in Hc. destruct Hc as [gc Hc]. rewrite cc_S in Hc.
+  destruct bt; try discriminate Eu; try discriminate Hc. cbn [under] in Eu. subst.
+  destruct gc; [rewrite cc_O in Hc|rewrite cc_S in Hc]; discriminate Hc.
+Qed.
+
+Lemma good_under_map bt et bv : good bt bv -> under bt = TMap et ->
+  good (TMap et) bv /\ (tsize (TMap et) <= tsize bt)%nat.
+Proof.
+  intros Hg Eu. destruct bt; try discriminate Eu; cbn [under] in Eu.
+  - inversion Eu; subst. split; [exact Hg|lia].
+  - subst. split; [apply good_named; [reflexivity|exact Hg]|cbn [tsize]; lia].
+Qed.
+
+(* ---------- the resolver chain keeps "good" ---------- *)
+Lemma msz_base_le t m b v bv : base_type t = (m, b) -> deref m v = Some bv -> (msz b bv <= msz t v)%nat.
+Proof. intros Eb Ed. rewrite (msz_base t m b v bv Eb Ed). lia. Qed.
+
+Lemma resolve_good : forall f t v t' v', good t v -> resolve f t v = Some (t', v') ->
+  good t' v' /\ (msz t' v' <= msz t v)%nat.
+Proof.
+  induction f as [|f IH]; intros t v t' v' Hg H; [discriminate H|].
+  cbn [resolve] in H. destruct (base_type t) as [n bt] eqn:Eb.
+  destruct (deref n v) as [bv|] eqn:Ed; [|discriminate H].
+  pose proof (good_base t n bt v bv Hg Eb Ed) as Hgb. pose proof (msz_base_le t n bt v bv Eb Ed) as Hm.
+  destruct (under bt) eqn:Eu;
+    try (inversion H; subst; split; assumption);
+    try (destruct (glen bv >? 0); [inversion H; subst; split; assumption|discriminate H]).
+  destruct Hgb as (Hbt & Hbv & Hbc & Hbd & Hbs).
+  apply under_iface in Eu; [|exact Hbt]. subst bt.
+  destruct bv; try discriminate H.
+  destruct (has_resolver t0).
+  - destruct (good_iface t0 bv (conj Hbt (conj Hbv (conj Hbc (conj Hbd Hbs))))) as [Hgd _].
+    destruct (IH t0 bv t' v' Hgd H) as [Hg' Hm']. split; [exact Hg'|].
+    unfold msz in *. cbn [tsize vsize] in Hm. lia.
+  - inversion H; subst. split; [|exact Hm]. repeat split; assumption.
+Qed.
